@@ -2,6 +2,7 @@ import Redproxy.Model.Frames
 import Redproxy.Lemmas.Rd
 import Redproxy.Lemmas.RdEval
 import Redproxy.Lemmas.AddrText
+import Redproxy.Model.Http
 /-!
 # C03 — destination integrity through every protocol re-encoding
 
@@ -375,5 +376,85 @@ theorem text_roundtrip_domain (tbl : V6Tbl) (h : Bytes) (p : Nat) (hp : p < 6553
 example : Addr.parseSock4 ([101,120,97,109,112,108,101,46,99,111,109] ++ [Addr.colon] ++ showNat 443) = none := by decide
 example : Addr.parse [] (Addr.toText [] (.domain [49,46,50,46,51,46,52] 80)) = some (.v4 16909060 80) := by decide
 example : Addr.parse [] (Addr.toText [] (.domain [97,58,98] 80)) = some (.domain [97,58,98] 80) := by decide
+
+/-! ## HTTP CONNECT end to end at the level of request heads: what `h11c_connect` composes, `h11c_handshake`
+interprets as the same destination (and the same feature) — for every destination whose text form reads back,
+which the three `text_roundtrip_*` theorems establish. -/
+
+open Http in
+/-- the `Host` header that `h11c_connect` adds never shadows the feature headers -/
+theorem host_is_not_a_feature_header :
+    eqIgnoreCase (strBytes "Host") (strBytes "Proxy-Protocol") = false ∧
+    eqIgnoreCase (strBytes "Host") (strBytes "Proxy-Channel") = false ∧
+    eqIgnoreCase (strBytes "Host") (strBytes "Udp-Bind-Source") = false ∧
+    eqIgnoreCase (strBytes "Proxy-Protocol") (strBytes "Proxy-Channel") = false ∧
+    eqIgnoreCase (strBytes "Proxy-Protocol") (strBytes "Udp-Bind-Source") = false ∧
+    eqIgnoreCase (strBytes "Proxy-Channel") (strBytes "Udp-Bind-Source") = false ∧
+    eqIgnoreCase (strBytes "CONNECT") (strBytes "CONNECT") = true ∧
+    eqIgnoreCase (strBytes "tcp") (strBytes "tcp") = true ∧
+    eqIgnoreCase (strBytes "udp") (strBytes "tcp") = false ∧
+    eqIgnoreCase (strBytes "udp") (strBytes "udp") = true := by decide +kernel
+
+open Http in
+/-- TCP: the composed CONNECT request is interpreted as a TCP tunnel to exactly the destination given -/
+theorem connect_tcp_interpreted (tbl : V6Tbl) (t : Addr) (ch bs : Bytes) (req : Req)
+    (hrt : Addr.parse tbl (t.toText tbl) = some t)
+    (hreq : connectRequest tbl t .tcp ch bs = some req) :
+    interpret tbl req = .tcp t := by
+  obtain ⟨h1, -, -, -, -, -, h7, h8, -, -⟩ := host_is_not_a_feature_header
+  unfold connectRequest at hreq
+  split at hreq
+  · exact absurd hreq (by simp)
+  · simp only [Option.some.injEq] at hreq
+    subst hreq
+    unfold interpret
+    simp only [h7, if_true, hrt]
+    by_cases he : t.toText tbl = [] <;> simp [withHeader, he, header, h1, h8]
+
+open Http in
+/-- UDP over CONNECT: the composed request is interpreted as a UDP association to exactly the destination given, with
+the channel kind the connector asked for (an empty channel is omitted and reads back as the default, inline) -/
+theorem connect_udp_interpreted (tbl : V6Tbl) (t : Addr) (ch bs : Bytes) (req : Req)
+    (hrt : Addr.parse tbl (t.toText tbl) = some t)
+    (hreq : connectRequest tbl t .udpForward ch bs = some req) :
+    interpret tbl req =
+      .udp t (eqIgnoreCase (if ch = [] then strBytes "inline" else ch) (strBytes "inline")) [] := by
+  obtain ⟨h1, h2, h3, h4, h5, h6, h7, h8, h9, h10⟩ := host_is_not_a_feature_header
+  have hu : strBytes "udp" ≠ [] := by decide +kernel
+  have r1 : eqIgnoreCase (strBytes "Proxy-Protocol") (strBytes "Proxy-Protocol") = true := by decide +kernel
+  have r2 : eqIgnoreCase (strBytes "Proxy-Channel") (strBytes "Proxy-Channel") = true := by decide +kernel
+  have r3 : eqIgnoreCase (strBytes "inline") (strBytes "inline") = true := by decide +kernel
+  unfold connectRequest at hreq
+  split at hreq
+  · exact absurd hreq (by simp)
+  · simp only [Option.some.injEq] at hreq
+    subst hreq
+    unfold interpret
+    simp only [h7, if_true, hrt]
+    by_cases he : t.toText tbl = [] <;> by_cases hc : ch = [] <;>
+      simp [withHeader, he, hc, hu, header, h1, h2, h3, h4, h5, h6, h8, h9, h10, r1, r2, r3, List.find?]
+
+open Http in
+/-- instantiation: every IPv4 destination, every port — no hypothesis left but well-formedness -/
+theorem connect_tcp_v4 (tbl : V6Tbl) (ip p : Nat) (hip : ip < 4294967296) (hp : p < 65536) (ch bs : Bytes) :
+    ∃ req, connectRequest tbl (.v4 ip p) .tcp ch bs = some req ∧ interpret tbl req = .tcp (.v4 ip p) := by
+  refine ⟨_, rfl, connect_tcp_interpreted tbl _ ch bs _ (text_roundtrip_v4 tbl ip p hip hp) rfl⟩
+
+open Http in
+/-- a host name containing a framing byte (space, CR, LF, TAB, DEL, any control) is refused before anything is written:
+the request line can never be re-split into a different destination -/
+theorem connect_refuses_framing_bytes (tbl : V6Tbl) (h : Bytes) (p : Nat) (f : Feature) (ch bs : Bytes) (b : Nat)
+    (hb : b ∈ h) (hctl : b ≤ 0x20 ∨ b = 0x7f) :
+    connectRequest tbl (.domain h p) f ch bs = none := by
+  have : hostOkForConnect (.domain h p) = false := by
+    simp only [hostOkForConnect, Bool.not_eq_false', Bool.or_eq_true, decide_eq_true_eq, List.any_eq_true]
+    exact Or.inr ⟨b, hb, hctl⟩
+  simp [connectRequest, this]
+
+-- non-vacuity: "a.b:443" over TCP and with a `plain` channel over UDP
+example : Http.interpret [] ((Http.connectRequest [] (.domain [97,46,98] 443) .tcp [] []).get (by decide +kernel))
+    = .tcp (.domain [97,46,98] 443) := by decide +kernel
+example : Http.interpret [] ((Http.connectRequest [] (.domain [97,46,98] 443) .udpForward [112] []).get (by decide +kernel))
+    = .udp (.domain [97,46,98] 443) false [] := by decide +kernel
 
 end Redproxy.Props.C03
